@@ -4,6 +4,8 @@ import (
 	"bytes"
 	"fmt"
 	"strconv"
+	"strings"
+	"sync"
 	"time"
 
 	simplefixgo "github.com/b2broker/simplefix-go"
@@ -172,6 +174,82 @@ func logoutScenario(c *vk.Ctx, i int) {
 		}
 		if mode != "save-fails" {
 			c.Violate("C19/refused-message-transmitted/own-logout/"+mode, desc+": the Logout an outgoing handler refused is on the wire", replay)
+		}
+	}
+}
+
+// inboundOddSeq: inbound messages whose MsgSeqNum is missing or not a number (correct framing). Whatever the session
+// makes of them, they are inbound messages: offered to the application's all-types handlers and then to the handlers
+// of their own type.
+func inboundOddSeq(c *vk.Ctx, i int) {
+	role := rig.Role(i % 2)
+	var mu sync.Mutex
+	var log []string
+	rec := func(scope string) func([]byte) bool {
+		return func(m []byte) bool {
+			fs, _ := fixref.TokenizeLoose(m)
+			if t := fixref.GetS(fs, "35"); t != "0" && t != "1" {
+				return true // the step driver's own barrier message
+			}
+			mu.Lock()
+			log = append(log, scope+":"+fixref.GetS(fs, "35")+":"+fixref.GetS(fs, rig.TTestReqID)+fixref.GetS(fs, "58"))
+			mu.Unlock()
+			return true
+		}
+	}
+	rg, err := rig.NewStepRig(rig.StepCfg{Role: role, HeartBtInt: 30, Limits: &session.IntLimits{Min: 5, Max: 60}, SentinelBarrier: true,
+		AfterRun: func(h *simplefixgo.DefaultHandler, s *session.Session) {
+			h.HandleIncoming(simplefixgo.AllMsgTypes, rec("ALL"))
+			h.HandleIncoming("0", rec("TYPE"))
+			h.HandleIncoming("1", rec("TYPE"))
+		}})
+	if err != nil {
+		c.Inconclusive("rig: " + err.Error())
+		return
+	}
+	defer rg.Close()
+	p := rig.NewPeer()
+	if res := rg.Inbound(p.Logon(30, "0")); !res.Logged {
+		c.Inconclusive("odd-seq scenario: no logon")
+		return
+	}
+	mu.Lock()
+	log = nil
+	mu.Unlock()
+	type in struct {
+		name string
+		msg  []byte
+		want string
+	}
+	hb := func(tag string) []byte { return p.Msg("0", fixref.F(rig.TTestReqID, tag)) }
+	ins := []in{
+		{"ordinary Heartbeat", hb("h1"), "0:h1"},
+		{"Heartbeat without MsgSeqNum", rig.Reframe(hb("h2"), nil, map[string]bool{rig.TSeq: true}), "0:h2"},
+		{"Heartbeat with MsgSeqNum 'x'", rig.Reframe(hb("h3"), map[string]string{rig.TSeq: "x"}, nil), "0:h3"},
+		{"Heartbeat with an empty MsgSeqNum", rig.Reframe(hb("h4"), map[string]string{rig.TSeq: ""}, nil), "0:h4"},
+		{"ordinary TestRequest", p.TestRequest("t5"), "1:t5"},
+	}
+	if i%4 >= 2 {
+		ins[1], ins[3] = ins[3], ins[1]
+	}
+	for _, x := range ins {
+		desc := fmt.Sprintf("%s logged on: inbound %s", role, x.name)
+		mu.Lock()
+		m0 := len(log)
+		mu.Unlock()
+		res := rg.Inbound(x.msg)
+		if res.TimedOut || res.RunEnded {
+			return
+		}
+		mu.Lock()
+		got := append([]string(nil), log[m0:]...)
+		mu.Unlock()
+		c.Eval(vk.Hash64([]byte(desc), []byte{byte(i)}), true)
+		c.Count("inbound_messages_with_odd_sequence_numbers", 1)
+		want := []string{"ALL:" + x.want, "TYPE:" + x.want}
+		if strings.Join(got, " ") != strings.Join(want, " ") {
+			c.Violate("C19/incoming-order/message-with-odd-seqnum", fmt.Sprintf("%s: offered as %v, want %v", desc, got, want), map[string]interface{}{"case": desc, "index": i, "message": fixref.Pretty(x.msg)})
+			return
 		}
 	}
 }
